@@ -134,6 +134,13 @@ theorem finiteDiff_row (t : Int → α) (order p n r : Nat) (c : Nat → α) (hr
     unfold finiteDiff
     rw [tab2_get_ofFn _ hr hx', if_neg (by omega), L.zero_eq, zero_mul]
 
+/-- entry `(r, i)` of the finite-difference matrix is derivative coefficient `r` of the unit vector `e_i` -/
+theorem finiteDiff_get_eq_derivCoef (t : Int → α) (order p n r i : Nat) (hr : r < n - p) (hi : i < n) :
+    (finiteDiff t order p n).get r i = derivCoef t order p (fun m => if m = i then 1 else 0) r := by
+  rw [← finiteDiff_row t order p n r _ hr]
+  simp only [mul_ite, mul_one, mul_zero]
+  rw [Finset.sum_ite_eq' (Finset.range n) i, if_pos (Finset.mem_range.mpr hi)]
+
 /-! ## `derivCoef` is linear and local -/
 
 theorem derivCoef_linear (t : Int → α) (order p : Nat) (a b : α) (c d : Nat → α) (j : Nat) :
@@ -167,5 +174,114 @@ theorem derivCoef_congr (t : Int → α) (order p : Nat) (c d : Nat → α) (j :
     simp only [derivCoef]
     rw [ih (j+1) (fun i hi => by have := h (i+1) (by omega); rwa [Nat.add_assoc, Nat.add_comm 1 i]),
         ih j (fun i hi => h i (by omega))]
+
+/-! ## `derivCoef` gives the coefficients of the derivative (summation by parts) -/
+
+/-- Abel summation: `Σ_{i ≤ M} c_i · k (B_i/W_i − B_{i+1}/W_{i+1})` -/
+theorem sum_by_parts {K : Type} [Field K] (B W : Int → K) (c : Nat → K) (k : K) (M : Nat) :
+    ∑ i ∈ Finset.range (M+1), c i * (k * (B (i : Int) / W (i : Int) - B ((i : Int) + 1) / W ((i : Int) + 1)))
+      = ∑ j ∈ Finset.range M, (k * (c (j+1) - c j) / W ((j : Int) + 1)) * B ((j : Int) + 1)
+        + c 0 * k * B 0 / W 0
+        - c M * k * B ((M : Int) + 1) / W ((M : Int) + 1) := by
+  induction M with
+  | zero => simp; ring
+  | succ M ih =>
+    rw [Finset.sum_range_succ, ih, Finset.sum_range_succ _ M]
+    push_cast
+    ring
+
+theorem Dind_one_succ (ind : Int → Bool) (t : Int → α) (x : α) (n : Nat) (i : Int) :
+    Dind ind t x 1 (n+1) i
+      = ((n+1 : Nat) : α) * (Bind ind t x n i / (t (i + n + 1) - t i)
+          - Bind ind t x n (i+1) / (t ((i + 1) + n + 1) - t (i+1))) := by
+  have h : i + 1 + (n : Int) + 1 = i + n + 2 := by ring
+  rw [h]
+  simp only [Dind, L.sub_eq, L.div_eq, L.mul_eq, L.ofNat_eq]
+
+theorem derivCoef_one (t : Int → α) (n : Nat) (c : Nat → α) (j : Nat) :
+    derivCoef t (n+1) 1 c j
+      = ((n+1 : Nat) : α) * (c (j+1) - c j) / (t (((j : Int) + 1) + n + 1) - t ((j : Int) + 1)) := by
+  have h1 : (j : Int) + ((n + 1 : Nat) : Int) + 1 = (j : Int) + 1 + n + 1 := by push_cast; ring
+  have h2 : (j : Int) + ((0 : Nat) : Int) + 1 = (j : Int) + 1 := by simp
+  simp only [derivCoef, L.sub_eq, L.div_eq, L.mul_eq, L.ofNat_eq, Nat.sub_zero, h1, h2]
+
+/-- The derivative of `Σ_{i<N} c_i B_{i,n+1}` (knot-difference formula `Dind … 1`) is
+`Σ_{j<N-1} c'_j B_{j+1,n}` with `c' = derivCoef … 1 c`, plus two boundary terms that only involve `B_{0,n}` and
+`B_{N,n}` (both vanish on the fully supported range of the `N` basis functions). -/
+theorem derivCoef_one_is_derivative (ind : Int → Bool) (t : Int → α) (x : α) (n : Nat) (c : Nat → α)
+    (N : Nat) (hN : 1 ≤ N) :
+    ∑ i ∈ Finset.range N, c i * Dind ind t x 1 (n+1) (i : Int)
+      = ∑ j ∈ Finset.range (N-1), derivCoef t (n+1) 1 c j * Bind ind t x n ((j : Int) + 1)
+        + c 0 * ((n+1 : Nat) : α) * Bind ind t x n 0 / (t ((n : Int) + 1) - t 0)
+        - c (N-1) * ((n+1 : Nat) : α) * Bind ind t x n (N : Int) / (t ((N : Int) + n + 1) - t (N : Int)) := by
+  obtain ⟨M, rfl⟩ : ∃ M, N = M + 1 := ⟨N - 1, by omega⟩
+  have key := sum_by_parts (fun i => Bind ind t x n i) (fun i => t (i + n + 1) - t i) c ((n+1 : Nat) : α) M
+  simp only [Nat.add_sub_cancel]
+  have e0 : (0 : Int) + (n : Int) + 1 = (n : Int) + 1 := by ring
+  have eM : ((M + 1 : Nat) : Int) = (M : Int) + 1 := by push_cast; ring
+  rw [eM]
+  simp only [e0] at key
+  have hl : ∑ i ∈ Finset.range (M+1), c i * Dind ind t x 1 (n+1) (i : Int)
+      = ∑ i ∈ Finset.range (M+1), c i * (((n+1 : Nat) : α) * (Bind ind t x n (i : Int) / (t ((i : Int) + n + 1) - t (i : Int))
+          - Bind ind t x n ((i : Int) + 1) / (t (((i : Int) + 1) + n + 1) - t ((i : Int) + 1)))) :=
+    Finset.sum_congr rfl (fun i _ => by rw [Dind_one_succ ind t x n (i : Int)])
+  have hr : ∑ j ∈ Finset.range M, derivCoef t (n+1) 1 c j * Bind ind t x n ((j : Int) + 1)
+      = ∑ j ∈ Finset.range M, (((n+1 : Nat) : α) * (c (j+1) - c j) / (t (((j : Int) + 1) + n + 1) - t ((j : Int) + 1)))
+          * Bind ind t x n ((j : Int) + 1) :=
+    Finset.sum_congr rfl (fun j _ => by rw [derivCoef_one t n c j])
+  rw [hl, hr]
+  exact key
+
+/-! ## `accumulate` -/
+
+theorem accumulate_foldl_size (es : List (Nat × α)) (arr : Array α) :
+    (es.foldl (fun arr e => if h : e.1 < arr.size then arr.set e.1 (A.add arr[e.1] e.2) else arr) arr).size
+      = arr.size := by
+  induction es generalizing arr with
+  | nil => rfl
+  | cons e es ih =>
+    rw [List.foldl_cons, ih]
+    split <;> simp
+
+theorem accumulate_size (size : Nat) (es : List (Nat × α)) : (accumulate size es).size = size := by
+  unfold accumulate
+  rw [accumulate_foldl_size, Array.size_replicate]
+
+theorem accumulate_foldl_get (es : List (Nat × α)) (arr : Array α) (k : Nat) (hk : k < arr.size) :
+    (es.foldl (fun arr e => if h : e.1 < arr.size then arr.set e.1 (A.add arr[e.1] e.2) else arr) arr)[k]?.getD 0
+      = arr[k]?.getD 0 + ((es.filter (fun e => e.1 = k)).map (·.2)).sum := by
+  induction es generalizing arr with
+  | nil => simp
+  | cons e es ih =>
+    rw [List.foldl_cons, ih]
+    · by_cases hek : e.1 = k
+      · have he : e.1 < arr.size := by omega
+        simp only [List.filter_cons, hek, decide_true, if_true, List.map_cons, List.sum_cons]
+        subst hek
+        simp [L.add_eq, hk, add_assoc]
+      · simp only [List.filter_cons, hek, decide_false, Bool.false_eq_true, if_false]
+        congr 2
+        split
+        · rw [Array.getElem?_set]
+          simp [hek]
+        · rfl
+    · split <;> simpa using hk
+
+/-- `accumulate`: position `k` holds the sum of the values listed for `k` -/
+theorem accumulate_get (size : Nat) (es : List (Nat × α)) (k : Nat) (hk : k < size) :
+    (accumulate size es)[k]?.getD 0 = ((es.filter (fun e => e.1 = k)).map (·.2)).sum := by
+  unfold accumulate
+  rw [accumulate_foldl_get _ _ _ (by simpa using hk)]
+  simp [hk, L.zero_eq]
+
+/-! ## concrete instances -/
+
+example : dividedDiffs (fun i => (i : Rat)) 3 0 5 = [1] := by rfl
+example : dividedDiffs (fun i => (i : Rat)) 3 1 0 = [-1, 1] := by
+  simp [dividedDiffs, Arith.div, Arith.sub, Arith.neg, Arith.one, Arith.zero, Arith.ofNat]
+  norm_num
+example : dividedDiffs (fun i => (i : Rat)) 3 2 0 = [1, -2, 1] := by
+  simp [dividedDiffs, Arith.div, Arith.sub, Arith.neg, Arith.one, Arith.zero, Arith.ofNat]
+  norm_num
 
 end PsV
